@@ -733,7 +733,7 @@ class Screen(BaseScreen, RealTerminal):
     ) -> tuple[
         list[tuple[object, Literal["0", "U"] | None, bytes]],
         int,
-        tuple[object, Literal["0", "U"] | None, bytes],
+        tuple[object, Literal["0", "U"] | None, bytes] | None,
     ]:
         """On the last row we need to slide the bottom right character
         into place. Calculate the new line, attr and an insert sequence
@@ -750,6 +750,9 @@ class Screen(BaseScreen, RealTerminal):
         last_cols = str_util.calc_width(last_text, 0, len(last_text))
         last_offs, z_col = str_util.calc_text_pos(last_text, 0, len(last_text), last_cols - 1)
         if last_offs == 0:
+            if not new_row:
+                # Z fills the whole row, there is no Y to slide it into place with
+                return row, 0, None
             z_text = last_text
             del new_row[-1]
             # we need another segment
